@@ -19,11 +19,66 @@ def beam_grammar():
     return S.table_grammar('BEAM', tags, ['S', 'A', 'B', 'C'], bt, {'A': [('S', 'ua')]}, True)
 
 
+WIDE_T = 40
+
+
+def wide_grammar():
+    """a large inventory (40 supertags, more than a machine word of them): every tag is a root, no rules; a one-word sentence parsed
+    with nbest = 40 returns exactly the tags the beam admitted"""
+    tags = [f'A{i}' for i in range(WIDE_T)]
+    return S.table_grammar('WIDE', tags, tags, {}, {}, True)
+
+
 _orig = C01.grammars
 
 
 def grammars():
-    return _orig() + [beam_grammar()]
+    return _orig() + [beam_grammar(), wide_grammar()]
+
+
+def wide_rows(p_best):
+    """tag rows over 40 tags: the best tag (0) at p_best, one tag at -1 next to it, and for every ordered pair of other positions a tag at
+    -3 and a tag at -8; the remaining tags far below, all different (no ties at the pruning boundary)"""
+    rows = []
+    T = WIDE_T
+    p_a = (p_best + 1) % T
+    rest = [p for p in range(T) if p not in (p_best, p_a)]
+    for p_b, p_c in itertools.permutations(rest, 2):
+        r = [0.0] * T
+        k = 0
+        for p in range(T):
+            if p == p_best:
+                r[p] = 0.0
+            elif p == p_a:
+                r[p] = -1.0
+            elif p == p_b:
+                r[p] = -3.0
+            elif p == p_c:
+                r[p] = -8.0
+            else:
+                r[p] = -20.0 - 0.125 * k
+                k += 1
+        rows.append(r + [-1.0, -1.0])
+    return rows
+
+
+def wide_shard(sh):
+    import numpy as np
+    from mc import sjudge
+    p_best, tier = sh
+    st = core.Stats()
+    gi = len(C01.grammars()) - 1
+    X = np.asarray(wide_rows(p_best), dtype=np.float32)
+    if tier == 'quick':
+        X = X[p_best % 3::3]
+    for ps in (2, 4, 6, WIDE_T):
+        for beta in (None, 0.2, 0.01):
+            cfg = dict(pruning_size=ps, use_beta=beta is not None, unary_penalty=0.5, nbest=WIDE_T)
+            if beta is not None:
+                cfg['beta'] = beta
+            sjudge.explore(st, gi, 1, X, cfg, 'native', J + ('nbest',))
+    st.add('wide_inventory', WIDE_T)
+    return st
 
 
 C01.grammars = grammars       # the beam grammar rides at the end of the shared list
@@ -40,7 +95,7 @@ def rows_for(n, dep_val=-1.0):
 
 def plan(tier):
     G = C01.grammars()
-    gi = len(G) - 1
+    gi = len(G) - 2
     sh = []
     cfgs = []
     for ps in (1, 2, 3):
@@ -62,7 +117,7 @@ def plan(tier):
             if tier == 'thorough' or (lo // 4000) % 4 == cfgs.index(cfg) % 4:
                 sh.append(('native', gi, 2, ('rows', r2[lo:lo + 4000]), dict(cfg, unary_penalty=0.5, nbest=3), J))
     # other grammars with >1 tag under beam settings
-    for gj, g in enumerate(G[:-1]):
+    for gj, g in enumerate(G[:-2]):
         if len(g.tags) > 1:
             for cfg in (dict(pruning_size=1, use_beta=False), dict(pruning_size=len(g.tags), use_beta=True, beta=0.2), dict(pruning_size=2, use_beta=True, beta=0.01)):
                 sh.append(('native', gj, 2, ('dev', [0.0, -1.0, -4.0, -150.0, -1e33], -1.0, 2 if len(g.tags) < 4 else 1, 6000), dict(cfg, unary_penalty=0.5), J))
@@ -106,10 +161,11 @@ def check(tier, seed):
     boot.load_parsing()
     shards = core.rotate(plan(tier), seed)
     st = core.pmap(sprops.run_shard, shards)
+    st.merge(core.pmap(wide_shard, [(p, tier) for p in range(WIDE_T)]))
     defaults = cli_defaults(st)
     return sprops.finish(PROP, tier, seed, st, t0, shards,
                          rule=('grammar in which every tag choice yields a distinct derivation (3 tags, n<=2): every tag row over {0,-1,-4,-150,-1e33} (-150: exp underflows in float32) for every word x pruning_size {1,2,3} '
-                               'x beta {off,0.5,0.2,0.01}; plus the shared grammars under beam settings. Oracle: admitted(w) from the statement; leaves must be admitted, result must be the '
+                               'x beta {off,0.5,0.2,0.01}; plus the shared grammars under beam settings; plus a 40-tag inventory: one-word sentences with nbest=40 (the result lists exactly the admitted tags), the best tag at every position and tags at -3 / -8 at every ordered pair of other positions x pruning_size {2,4,6,40} x beta {off,0.2,0.01}. Oracle: admitted(w) from the statement; leaves must be admitted, result must be the '
                                'optimum over admitted-only derivations, failure iff none. Ties at the pruning boundary, probabilities within e^0.3 of the threshold and all-zero '
                                'probabilities are unspecified and not judged. non-trivial = >=2 differently scored admitted derivations'),
                          assumptions=['thresholds kept a factor >1.3 away from every judged decision', 'dyadic scores'],
